@@ -12,6 +12,15 @@
    after every behaviour without a bad id a new request must get its reply.  Sampled behaviours are
    replayed into the real SFTPClientHandler through the public SFTPClient API
    with a scripted peer sending the replies.
+   specs/SftpProto/SftpValues.tla adds the VALUE a reply carries: for every
+   request kind of the public API every legal reply with boundary values
+   (handle of 0 / 1 / 256 bytes, data of 0 / 1 / many bytes, name list with
+   0 / 1 / 2 entries with and without the end flag, attributes with no / one
+   / many fields, extended reply, FX_OK where it is the answer, every status
+   code 1..31 and an undefined one) in v3..6: the caller gets exactly that
+   value or the error of that code, a handle is named again as issued and
+   closed exactly once; "an empty value counts as missing" must be rejected.
+   Every row is served by the scripted raw peer to the real client API.
 2. specs/SftpProto/SftpSrvCases.tla (server obligations + errno table as a
    case table): TLC checks the table and prints it; a raw SFTP client sends
    every request type intact, cut at every byte, extended, unsupported type
@@ -153,6 +162,16 @@ def main(ctx):
                     violate({'module': 'SftpAttrs', 'clause': clause,
                              'v': rp['v'], 'fields': rp['fields'],
                              'type': rp['type']}, text, rp)
+        elif rp['kind'] == 'value':
+            r = sftp_proto.value_case(rp['k'], rp['v'], rp['r'], rp['code'])
+            sftp_io.drop_world()
+            print('value case:', r['outcome'], r['closes'], r['l1'])
+            for clause, text in r['l1']:
+                violate({'module': 'SftpValues', 'clause': clause}
+                        if clause == 'EmptyHandleNotClosed' else
+                        {'module': 'SftpValues', 'clause': clause,
+                         'kind': rp['k'], 'v': rp['v'], 'reply': rp['r'],
+                         'code': rp['code']}, text, rp)
         elif rp['kind'] == 'handles':
             sw = sftp_proto.ServerWorld()
             try:
@@ -258,6 +277,18 @@ def main(ctx):
             run_tlc, PROTO, 'SftpHandles', 'c14_simh', hc, (), (), None,
             workers=4, simulate=f'file={dh}/tr,num={190 if quick else 2500}',
             depth=7, seed=ctx.seed * 10 + 8, deadlock=False)
+        vinv = ['ValueDelivered', 'StatusMapped', 'CloseOnce']
+        vc = dict(Emit='FALSE', FalsyIsMissing='FALSE',
+                  CloseSkipsEmpty='FALSE')
+        jobs['values'] = ex.submit(
+            run_tlc, PROTO, 'SftpValues', 'c14_values',
+            dict(vc, Emit='TRUE'), vinv + ['Table'], workers=1)
+        jobs['values_falsy'] = ex.submit(
+            run_tlc, PROTO, 'SftpValues', 'c14_values_f',
+            dict(vc, FalsyIsMissing='TRUE'), ['ValueDelivered'], workers=1)
+        jobs['values_skip'] = ex.submit(
+            run_tlc, PROTO, 'SftpValues', 'c14_values_s',
+            dict(vc, CloseSkipsEmpty='TRUE'), ['CloseOnce'], workers=1)
         jobs['srv'] = ex.submit(
             run_tlc, PROTO, 'SftpSrvCases', 'c14_srv',
             dict(Emit='TRUE', TypeAfterEncode='TRUE'),
@@ -312,6 +343,13 @@ def main(ctx):
                        expect_violation='NeverValue')
     ctx.require_tlc_ok('witness NeverClosed', res['wit_closed'],
                        expect_violation='NeverClosed')
+    ctx.require_tlc_ok('SftpValues table', res['values'])
+    ctx.require_tlc_ok('SftpValues where an empty value counts as missing '
+                       '(must violate ValueDelivered)', res['values_falsy'],
+                       expect_violation='ValueDelivered')
+    ctx.require_tlc_ok('SftpValues where a zero-length handle is never closed '
+                       '(the pinned tree; must violate CloseOnce)',
+                       res['values_skip'], expect_violation='CloseOnce')
     ctx.require_tlc_ok('SftpHandles exhaustive', res['handles'])
     ctx.require_tlc_ok('SftpHandles where the table entry goes only after the '
                        'close hook returned (must violate DeadIsInvalid)',
@@ -404,6 +442,55 @@ def main(ctx):
                      'version': r['version'], 'variant': r['variant']})
     ctx.require(nlate > 20, f'only {nlate} parallel I/O behaviours had '
                             f'cancelled block requests answered late')
+    # ---- 1b. the value a reply carries (SftpValues table) -------------------
+    vrows = [r for r in sftp_proto.printed_multiline(res['values'].output)
+             if r and r[0] == 'VALUE']
+    ctx.require(len(vrows) > 1500, f'value table has {len(vrows)} rows')
+    if quick:
+        # every value row; status rows: every code for a third of the
+        # (kind, version) pairs, the seeded third changes with the seed
+        vrows = [r for i, r in enumerate(vrows) if r[3] != 'status' or
+                 r[4] in (0, 1) or
+                 (hash((r[1], r[2])) + ctx.seed) % 3 == 0]
+    nval = nvalue_rows = 0
+    for row in vrows:
+        _tag, kind, v, rr, code, outcome, closes = row
+        r = sftp_proto.value_case(kind, v, rr, code)
+        nval += 1
+        nvalue_rows += rr != 'status'
+        ctx.count(('value', kind, v, rr, code), nontrivial=rr != 'status')
+        if nval % 211 == 5:
+            ctx.sample({'part': 'client-values', 'kind': kind, 'v': v,
+                        'reply': rr, 'code': code,
+                        'outcome': r['outcome'], 'closes': r['closes']})
+        for clause in sorted({c for c, _ in r['l1']}):
+            text = '; '.join(t for c, t in r['l1'] if c == clause)
+            if clause == 'EmptyHandleNotClosed':
+                key = ('SftpValues', clause)
+                seen[key] = seen.get(key, 0) + 1
+                if seen[key] == 1:
+                    ctx.violation({'module': 'SftpValues', 'clause': clause},
+                                  f'{clause}: v{v} {kind}: {text}',
+                                  replay={'kind': 'value', 'k': kind, 'v': v,
+                                          'r': rr, 'code': code})
+                continue
+            violate({'module': 'SftpValues', 'clause': clause, 'kind': kind,
+                     'v': v, 'reply': rr, 'code': code},
+                    f'{clause}: v{v} {kind} answered {rr}'
+                    f'{"(" + str(code) + ")" if rr == "status" else ""}: '
+                    f'{text}',
+                    {'kind': 'value', 'k': kind, 'v': v, 'r': rr,
+                     'code': code})
+        if not r['l1']:
+            want = tuple(outcome) if outcome[0] != 'badmsg' else ('exc', 5)
+            if r['outcome'] != want or \
+                    (kind in ('open', 'opendir') and r['closes'] != closes):
+                ctx.divergence(f'SftpValues: v{v} {kind} answered {rr} '
+                               f'{code}: caller got {r["outcome"]} closes='
+                               f'{r["closes"]}, table {want} closes={closes}')
+    ctx.traces_validated(nval)
+    ctx.notes.append(f'reply value rows replayed: {nval} '
+                     f'({nvalue_rows} value replies)')
     sftp_io.drop_world()
     tlc.cleanup('c14_sim_out')
     tlc.cleanup('c14_sim2_out')
